@@ -332,6 +332,10 @@ def decide(pid, tier, seed, P, vres, kres, kmeta, vac, t0, evdir):
                'time_s': h.get('time_s'), 'solver_s': h.get('solver_s')}
         solver_ms += 1000 * (h.get('solver_s') or 0)
         n = h.get('checks') or 0
+        for tl in (h.get('tolerated') or [])[:1]:
+            a = 'kani/%s: failed checks inside the tool library function %s are not counted (allocator model of Kani; the code under contract is safe Rust)' % (name, tl.split(':')[0])
+            if a not in assumptions:
+                assumptions.append(a)
         if h['status'] == 'SUCCESSFUL':
             cov = h.get('covers') or [0, 0]
             if cov[0] != cov[1]:
